@@ -526,7 +526,7 @@ def cex_to_scenario(states, name, finish=True, scale_bits=None, lookups_at_end=F
 
 # ----------------------------------------------------------------------------- engine shared by C03-C06, C08
 PROP_OF = {"read-not-latest": ("C03", "C04"), "SingleCopy": ("C05", "C03"), "NoLoss": ("C03",), "NoGhost": ("C03",), "Placement": ("C05",), "Reachable": ("C03",),
-           "OneMembershipOp": ("C06",), "NoStuck": ("C06",), "staleread": ("C04", "C03"), "splitwrite": ("C04", "C03"),
+           "OneMembershipOp": ("C06",), "JoinLockHeld": ("C06",), "NoStuck": ("C06",), "staleread": ("C04", "C03"), "splitwrite": ("C04", "C03"),
            "nilpred-panic": ("C08",)}
 
 MC_CFG = """SPECIFICATION Spec
@@ -549,7 +549,7 @@ CONSTANTS
 INVARIANTS %(invs)s
 CHECK_DEADLOCK FALSE
 """
-ALL_INVS = "InvSingleCopy InvNoLoss InvNoGhost InvOneOp InvNoStuck InvPlacement InvReachable InvNoBad InvNoNonRetryable"
+ALL_INVS = "InvSingleCopy InvNoLoss InvNoGhost InvOneOp InvJoinLockHeld InvNoStuck InvPlacement InvReachable InvNoBad InvNoNonRetryable"
 
 
 # coverage goals: branches of the membership actions (tags recorded by ChordKV when TrackCov = TRUE) and the small instances in which
